@@ -154,3 +154,149 @@ Definition update (i : upd_in) : list (list (N * N) * N) * list N :=
 (* ---- two kubernetes bindings sharing a group, named or both left with the default name ----
    (keys of the group's snapshots, objects reachable through them) *)
 Definition grp (named : bool) : N * N := if named then (2, 2) else (1, 1).
+
+(* ================================================================================================
+   (3) bindings with namespace.labelSelector: dynamic namespaces (monitor.go: CreateInformers,
+   Start, the namespace informer's add / delete callbacks, CreateInformersForNamespace,
+   cancelForNs, VaryingInformers, Snapshot).  MonitorConfig.namespaces() is empty when a
+   labelSelector is given (a namespace nameSelector beside it is ignored): there are no static
+   informers, staticNamespaces stays empty, every informer lives in VaryingInformers.
+
+   The cluster now has namespaces, each with or without the label the binding selects.  The
+   namespace informer sees them through a filtered watch: a namespace that starts matching
+   (created with the label / relabelled) is reported as Added, one that stops matching (deleted /
+   label removed) as Deleted, any other change as Modified (OnUpdate: ignored).  A deleted
+   namespace's objects are NOT removed by the model's cluster: histories say so explicitly
+   (losing the label leaves them in place in a real cluster, too).
+   ================================================================================================ *)
+
+Inductive dop :=
+| DObj (k : okind) (o : obj)          (* create / modify / delete of an object *)
+| DNs (ns : N) (lab : bool)           (* the namespace exists now, with (lab) or without the label *)
+| DNsDel (ns : N)                     (* the namespace is deleted *)
+| DRestart                            (* the operator restarts: a fresh monitor on the cluster as it is *)
+| DRead.                              (* the cluster is quiet and a snapshot is read *)
+
+Record dyn_in := mkDynIn {
+  dn_names : list N;                  (* nameSelector.matchNames ([] = any name), may repeat *)
+  dn_initial : list obj;              (* objects and ... *)
+  dn_nss : list (N * bool);           (* ... namespaces when the operator starts *)
+  dn_ghost_ns : option N;             (* this namespace loses the label between CreateInformers and Start *)
+  dn_ops : list dop;
+  dn_filter : bool; dn_keep : bool
+}.
+
+(* the cluster's namespaces: at most one entry per namespace *)
+Fixpoint ns_set (ns : N) (lab : bool) (l : list (N * bool)) : list (N * bool) :=
+  match l with
+  | [] => [(ns, lab)]
+  | x :: r => if N.eqb (fst x) ns then (ns, lab) :: r else x :: ns_set ns lab r
+  end.
+Fixpoint ns_del (ns : N) (l : list (N * bool)) : list (N * bool) :=
+  match l with
+  | [] => []
+  | x :: r => if N.eqb (fst x) ns then r else x :: ns_del ns r
+  end.
+(* the namespace exists and carries the label: it matches the labelSelector *)
+Fixpoint ns_lab (ns : N) (l : list (N * bool)) : bool :=
+  match l with
+  | [] => false
+  | x :: r => if N.eqb (fst x) ns then snd x else ns_lab ns r
+  end.
+
+Definition dcl := (list obj * list (N * bool))%type.     (* objects, namespaces *)
+Definition dcl_apply (c : dcl) (op : dop) : dcl :=
+  match op with
+  | DObj k o => (cl_apply (fst c) (k, o), snd c)
+  | DNs ns lab => (fst c, ns_set ns lab (snd c))
+  | DNsDel ns => (fst c, ns_del ns (snd c))
+  | DRestart | DRead => c
+  end.
+Definition dyn_cluster0 (i : dyn_in) : dcl :=
+  (fold_left (fun c o => cl_set o c) (dn_initial i) [],
+   fold_left (fun l p => ns_set (fst p) (snd p) l) (dn_nss i) []).
+(* the cluster when the monitor starts *)
+Definition dyn_cluster1 (i : dyn_in) : dcl :=
+  let c := dyn_cluster0 i in
+  match dn_ghost_ns i with Some g => (fst c, ns_set g false (snd c)) | None => c end.
+
+(* one resourceInformer of a namespace: its name scope and its cache *)
+Definition informer := (option N * list obj)%type.
+(* VaryingInformers (namespace -> informers) and the keys of cancelForNs *)
+Record dmon := mkDM { dm_vary : list (N * list informer); dm_cancel : list N }.
+
+Definition name_scopes (names : list N) : list (option N) :=
+  match uniq names [] with [] => [None] | l => map Some l end.
+
+(* CreateInformersForNamespace: one informer per name; createSharedInformer loads the objects
+   that exist (loadExistedObjects) *)
+Definition informers_for (names : list N) (objs : list obj) (ns : N) : list informer :=
+  map (fun nm => (nm, filter (in_scope (Some ns, nm)) objs)) (name_scopes names).
+
+(* the add callback: "ignore already started informers", else create, store, cancel function, start *)
+Definition add_ns (names : list N) (objs : list obj) (m : dmon) (ns : N) : dmon :=
+  if mem_N ns (map fst (dm_vary m)) then m
+  else mkDM (dm_vary m ++ [(ns, informers_for names objs ns)]) (dm_cancel m ++ [ns]).
+(* the delete callback: "ignore already stopped informers" (no cancel function: return), else
+   cancel, VaryingInformers.Delete, cancelForNs.Delete *)
+Definition del_ns (m : dmon) (ns : N) : dmon :=
+  if mem_N ns (dm_cancel m)
+  then mkDM (filter (fun e => negb (N.eqb (fst e) ns)) (dm_vary m)) (filter (fun x => negb (N.eqb x ns)) (dm_cancel m))
+  else m.
+
+Definition matching_nss (nss : list (N * bool)) : list N := map fst (filter (fun x => snd x) nss).
+
+(* CreateInformers: informers for the namespaces of the initial (filtered) namespace list *)
+Definition create_mon (names : list N) (c : dcl) : dmon :=
+  mkDM (map (fun ns => (ns, informers_for names (fst c) ns)) (matching_nss (snd c))) [].
+(* Start: a cancel function for every namespace in VaryingInformers, their informers start;
+   then the namespace informer starts: its own list reports every namespace matching NOW as Added *)
+Definition start_mon (names : list N) (c : dcl) (m : dmon) : dmon :=
+  fold_left (add_ns names (fst c)) (matching_nss (snd c)) (mkDM (dm_vary m) (map fst (dm_vary m))).
+
+(* a delivered object change reaches the caches of the running informers whose scope holds it *)
+Definition deliver (op : okind * obj) (m : dmon) : dmon :=
+  mkDM (map (fun e => (fst e, map (fun inf : informer =>
+                                     if in_scope (Some (fst e), fst inf) (snd op)
+                                     then (fst inf, cl_apply (snd inf) op) else inf) (snd e)))
+            (dm_vary m))
+       (dm_cancel m).
+
+Definition dstep (names : list N) (st : dcl * dmon) (op : dop) : dcl * dmon :=
+  let c := fst st in let m := snd st in
+  let c' := dcl_apply c op in
+  match op with
+  | DObj k o => (c', deliver (k, o) m)
+  | DNs ns lab =>
+      let was := ns_lab ns (snd c) in
+      (c', if negb was && lab then add_ns names (fst c) m ns
+           else if was && negb lab then del_ns m ns
+           else m)
+  | DNsDel ns => (c', if ns_lab ns (snd c) then del_ns m ns else m)
+  | DRestart => (c, start_mon names c (create_mon names c))
+  | DRead => (c, m)
+  end.
+
+(* Snapshot(): the caches of the informers in VaryingInformers, sorted *)
+Definition mon_caches (m : dmon) : list obj := flat_map (fun e => flat_map (fun inf : informer => snd inf) (snd e)) (dm_vary m).
+Definition mon_snapshot (m : dmon) : list obj := sort_objs (mon_caches m).
+
+Fixpoint drun (names : list N) (st : dcl * dmon) (ops : list dop) : list (list obj) :=
+  match ops with
+  | [] => []
+  | op :: r => let st' := dstep names st op in
+               match op with
+               | DRead => mon_snapshot (snd st') :: drun names st' r
+               | _ => drun names st' r
+               end
+  end.
+
+Definition dyn_init (i : dyn_in) : dcl * dmon :=
+  (dyn_cluster1 i, start_mon (dn_names i) (dyn_cluster1 i) (create_mon (dn_names i) (dyn_cluster0 i))).
+(* the snapshots read at the DRead points of the history *)
+Definition dyn_snapshots (i : dyn_in) : list (list obj) := drun (dn_names i) (dyn_init i) (dn_ops i).
+Definition dshown (i : dyn_in) (o : obj) : view :=
+  (o_ns o, o_name o,
+   if dn_filter i then Some (proj_of (snd o)) else None,
+   if dn_keep i then Some (snd o) else None).
+Definition dyn_views (i : dyn_in) : list (list view) := map (map (dshown i)) (dyn_snapshots i).
